@@ -11,6 +11,8 @@ excludes the steps that are confirmed defects of the code.
 import OpenFGAVerif.Proofs.ListUsersStage2
 import OpenFGAVerif.Proofs.Stratified
 
+set_option linter.unusedSectionVars false
+
 namespace OpenFGAVerif.ListUsers
 open OpenFGAVerif.BoolSys
 
